@@ -155,6 +155,10 @@ class SeqOps:
             fa([s, m, x, w, v], z3.Implies(z3.And(Mem(s, x), NoDup(s)),
                                            Cnt(s, z3.Store(m, x, w), v) == Cnt(s, m, v) - b2i(m[x] == v) + b2i(w == v)),
                Cnt(s, z3.Store(m, x, w), v))
+            # restricted-trigger forms (need the select m[x] to be present): a member with the value makes the count
+            # positive; a full count means every member has the value
+            fa([s, m, v, x], z3.Implies(z3.And(Mem(s, x), m[x] == v), Cnt(s, m, v) >= 1), Cnt(s, m, v), Mem(s, x), m[x])
+            fa([s, m, v, x], z3.Implies(z3.And(Cnt(s, m, v) == Len(s), Mem(s, x)), m[x] == v), Cnt(s, m, v), Mem(s, x), m[x])
             if FULL_CNT:
                 # all-equal <=> count is the length   (cross-product triggers: only enabled where needed, e.g. C06)
                 fa([s, m, v, x], z3.Implies(z3.And(Cnt(s, m, v) == Len(s), Mem(s, x)), m[x] == v), Cnt(s, m, v), Mem(s, x))
